@@ -79,9 +79,10 @@ const (
 )
 
 type pathStep struct {
-	field int
-	idx   *Term
-	inT   types.Type // the type being indexed / selected from
+	field  int
+	idx    *Term
+	inT    types.Type // the type being indexed / selected from
+	isElem bool       // idx step on an element heap: inT is the element type itself
 }
 
 type LVal struct {
@@ -532,7 +533,7 @@ func (fr *Frame) read(l *LVal, st *State) Term {
 	for _, s := range l.path {
 		if s.idx != nil {
 			var es Sort
-			if arr, ok := s.inT.Underlying().(*types.Array); ok {
+			if arr, ok := s.inT.Underlying().(*types.Array); ok && !s.isElem {
 				es = c.sortOf(arr.Elem())
 			} else {
 				es = c.sortOf(s.inT) // elems root: inT is the element type
@@ -562,7 +563,7 @@ func (fr *Frame) upd(cur Term, path []pathStep, nv Term) Term {
 	s := path[0]
 	if s.idx != nil {
 		var es Sort
-		if arr, ok := s.inT.Underlying().(*types.Array); ok {
+		if arr, ok := s.inT.Underlying().(*types.Array); ok && !s.isElem {
 			es = c.sortOf(arr.Elem())
 		} else {
 			es = c.sortOf(s.inT)
@@ -807,6 +808,16 @@ func (fr *Frame) run(st *State, reach Term) error {
 				fr.deferKeys[d] = key
 				c.registerKey(key, SBool, true)
 				st.set(key, tFalse)
+			}
+		}
+	}
+	// iteration counters of unrolled loops: -1 until the loop is reached
+	if fr.con != nil {
+		for _, l := range fr.loops.heads {
+			if fr.con.Unroll[l.ordinal] > 0 {
+				iterKey := fmt.Sprintf("U:loop%d@%d", l.ordinal, fr.frameID)
+				c.registerKey(iterKey, c.sc.idxSort(), true)
+				st.set(iterKey, c.sc.idxLit(-1))
 			}
 		}
 	}
